@@ -252,11 +252,11 @@ def detyz_to_xy(coor, o11, o12, o21, o22, dety_size, detz_size):
     omat = n.array([[o11, o12], 
                     [o21, o22]])
     # Well we need to use the inverse operations here
-    omat = n.linalg.inv(omat)
     det_size = n.array([detz_size-1, 
                         dety_size-1]) # also transpose coord in size
-    coor = n.dot(omat, coor) - n.clip(n.dot(omat, det_size), 
-                                      -n.max(det_size), 0)
+    # undo xy_to_detyz: first add back the offset it subtracted, then apply the inverse matrix
+    coor = n.dot(n.linalg.inv(omat), coor + n.clip(n.dot(omat, det_size), 
+                                                    -n.max(det_size), 0))
     return coor
 
 def xy_to_detyz(coor, o11, o12, o21, o22, dety_size, detz_size):
